@@ -80,6 +80,12 @@ def run_cases(ctx, name, modname, fname, cases, rule, nontrivial=None,
     cases = list(cases)
     if not cases:
         return 0
+    if modname in ('vf.rtc.mc_rtc', 'vf.rtc.fair_rtc'):
+        rule += ('; structures are built by gen.mk_kripke with initial states none/first/last/all and label/transition containers '
+                 'set/list/tuple/frozenset/with a repetition, fixed per structure')
+        if fname == 'check_mc_case':
+            rule += ('; every third formula also on the structure whose labelling was installed by replace_labelling_function (with an extra '
+                     'key that is not a state); CTL* formulas also on a structure carrying atoms named like the reduction\'s markers')
     chunk = chunk or max(1, min(2000, len(cases) // (core.NPROC * 4) or 1))
     jobs = [(modname, fname, nontrivial, cases[i:i + chunk])
             for i in range(0, len(cases), chunk)]
